@@ -82,9 +82,17 @@ Definition probe_ok (h : hop) : bool :=
 
 
 (* running bound B on |translation|: B' = 2 max|M| B + k max|s|  (an upper bound on the exact value) *)
+(* magnitude of the probe images a reference-plane correction is derived from (0 for the other operations): the
+   numerical plane-to-plane map differences these values, so the translation it yields carries their rounding even
+   when the effective shift is (nearly) zero *)
+Definition probe_mag (h : hop) : Q :=
+  match h with
+  | HSetRef _ _ pts _ _ => fold_right (fun a acc => Qmax (q2_maxabs a) acc) 0 pts
+  | _ => 0
+  end.
 Definition bound_step (k : Q) (B : Q) (h : hop) : Q :=
   match eff_corr h with
-  | Some (M, s) => Qred (2 * q4_maxabs (of_mat M) * B + Qabs k * q2_maxabs (of_pt s))
+  | Some (M, s) => Qred (2 * q4_maxabs (of_mat M) * B + Qabs k * (q2_maxabs (of_pt s) + probe_mag h))
   | None => B
   end.
 
